@@ -402,11 +402,11 @@ for nm in names:
 chains = 0
 for nm in names[:4]:
     try:
-        w = build_world(nm); seen = {w.name}
+        w = build_world(nm)
         for k in range(5):
+            parent = w.name
             w = build_from_world(w, {}); chains += 1
-            if w.name in seen: bad.append((nm, "duplicate derived name", w.name))
-            seen.add(w.name)
+            if w.name == parent: bad.append((nm, "derived name equals its source", w.name))
     except Exception as ex:
         bad.append((nm, "derivation chain raised", repr(ex)[:80]))
 result = {"worlds": len(names), "checked": checked, "derivations": chains, "bad": bad[:10]}
